@@ -748,10 +748,191 @@ def gen_sites() -> typing.Tuple[bool, str]:
     frows = ['  {| f_lang := %s; f_filter := %s; f_key := %s; f_prefix := %s; f_suffix := %s; f_reg := %s |}'
              % (_coq_str(f['lang']), _coq_str(f['filter']), _coq_str(f['key']), _coq_str(f['prefix']), _coq_str(f['suffix']),
                 'R' + f['registration'].capitalize()) for f in filters]
-    text = ('Definition g_sites : list site :=\n [\n' + ';\n'.join(rows) + '\n ].\n\n'
+    try:
+        stores = scan_stores()
+    except (Unsupported, SyntaxError, OSError) as ex:
+        gen.write_if_changed(out_path, head + '(* store scanner failed closed: %s *)\n' % str(ex).replace('*)', '* )'))
+        return False, 'store scanner failed closed: %s' % ex
+    srows = ['  {| st_file := %s;\n     st_fn := %s;\n     st_target := %s; st_root := %s; st_phase := %s |}'
+             % (_coq_str(x['file']), _coq_str(x['fn']), _coq_str(x['target']), x['root'], x['phase']) for x in stores]
+    text = ('Definition g_stores : list store :=\n [\n' + ';\n'.join(srows) + '\n ].\n\n'
+            'Definition g_sites : list site :=\n [\n' + ';\n'.join(rows) + '\n ].\n\n'
             'Definition g_uniq_filters : list uniq_filter :=\n [\n' + ';\n'.join(frows) + '\n ].\n')
     gen.write_if_changed(out_path, head + text)
-    return True, 'ok (%d sites, %d unique-name filters)' % (len(sites), len(filters))
+    return True, 'ok (%d memo sites, %d stores on long-lived objects of which %d in the render phase, %d unique-name filters)' % (
+        len(sites), len(stores), sum(1 for x in stores if x['phase'] == 'SRender'), len(filters))
 
 
 GENERATORS['sites'] = gen_sites
+
+
+# =====================================================================================================================
+# Inventory BY EFFECT (C10): every store on an object that outlives a file -- attribute store, item store, augmented
+# assignment, del, setattr/delattr, mutating method call -- on self / cls / a module global / a closed-over variable (or on
+# a local alias of something reached from them), in any function other than __init__, in every module of src/nunavut
+# except the bundled jinja2/markupsafe.  Each store is tagged with the PHASE of its function: SRender if the function is
+# reachable (name-based call graph, over-approximate) from generate_all / the line post-processors' __call__ / any template
+# filter, test or uses-query, SSetup otherwise.
+# =====================================================================================================================
+STORE_MUTATORS = MUTATORS | {'popleft', 'rotate', 'write', 'writelines', 'seek', 'truncate'}
+RENDER_ROOT_NAMES = {'generate_all', '__call__'}
+RENDER_ROOT_PREFIXES = ('filter_', 'is_', 'uses_')
+
+
+def _path_of(e: ast.expr, alias: typing.Dict[str, str]) -> typing.Tuple[typing.Optional[str], str]:
+    """(root name, dotted path without subscript indices) of the object designated by e"""
+    parts: typing.List[str] = []
+    while True:
+        if isinstance(e, ast.Attribute):
+            parts.append('.' + e.attr)
+            e = e.value
+        elif isinstance(e, ast.Subscript):
+            parts.append('[]')
+            e = e.value
+        elif isinstance(e, ast.Call) and isinstance(e.func, ast.Attribute):
+            parts.append('.%s()' % e.func.attr)
+            e = e.func.value
+        else:
+            break
+    if not isinstance(e, ast.Name):
+        return None, ''
+    root = e.id
+    tail = ''.join(reversed(parts))
+    if root in alias:
+        return alias[root].split('.')[0].split('[')[0], alias[root] + tail
+    return root, root + tail
+
+
+def scan_stores() -> typing.List[dict]:
+    root_dir = os.path.join(gen.REPO, 'src', 'nunavut')
+    mods = []
+    for d, _, names in sorted(os.walk(root_dir)):
+        for n in sorted(names):
+            rel = os.path.relpath(os.path.join(d, n), root_dir).replace(os.sep, '/')
+            if n.endswith('.py') and not rel.startswith(SCAN_EXCLUDE):
+                mods.append((rel, ast.parse(open(os.path.join(d, n), encoding='utf-8').read(), filename=rel)))
+    # ---- functions, name-based call graph, render-phase reachability
+    funcs: typing.List[typing.Tuple[str, str, ast.FunctionDef, typing.Set[str], typing.Set[str]]] = []
+
+    def collect(rel, body, prefix, encl, mod_globals):
+        for st in body:
+            if isinstance(st, ast.ClassDef):
+                collect(rel, st.body, prefix + st.name + '.', encl, mod_globals)
+            elif isinstance(st, (ast.FunctionDef, ast.AsyncFunctionDef)):
+                funcs.append((rel, prefix + st.name, st, set(encl), mod_globals))
+                inner = {n.id for n in ast.walk(st) if isinstance(n, ast.Name) and isinstance(n.ctx, ast.Store)}
+                inner |= {a.arg for a in st.args.args + st.args.kwonlyargs}
+                nested = [x for x in st.body if isinstance(x, (ast.FunctionDef, ast.AsyncFunctionDef, ast.ClassDef))]
+                for x in ast.walk(st):
+                    if x is not st and isinstance(x, (ast.FunctionDef, ast.AsyncFunctionDef)) and x not in nested:
+                        nested.append(x)
+                collect(rel, nested, prefix + st.name + '.', encl | inner, mod_globals)
+
+    for rel, tree in mods:
+        mg = {t.id for st in tree.body if isinstance(st, (ast.Assign, ast.AnnAssign))
+              for t in (st.targets if isinstance(st, ast.Assign) else [st.target]) if isinstance(t, ast.Name)}
+        collect(rel, tree.body, '', set(), mg)
+    seen_q = set()
+    uniq_funcs = []
+    for f in funcs:
+        if (f[0], f[1], f[2].lineno) not in seen_q:
+            seen_q.add((f[0], f[1], f[2].lineno))
+            uniq_funcs.append(f)
+    funcs = uniq_funcs
+    by_name: typing.Dict[str, typing.List[int]] = {}
+    for i, f in enumerate(funcs):
+        by_name.setdefault(f[2].name, []).append(i)
+    calls: typing.List[typing.Set[str]] = []
+    for f in funcs:
+        cs = set()
+        for n in ast.walk(f[2]):
+            if isinstance(n, ast.Call):
+                g = n.func
+                cs.add(g.attr if isinstance(g, ast.Attribute) else (g.id if isinstance(g, ast.Name) else ''))
+            elif isinstance(n, ast.Attribute):
+                cs.add(n.attr)            # properties (getters and setters) are calls too
+        calls.append(cs)
+    render: typing.Set[int] = set()
+    todo = [i for i, f in enumerate(funcs) if f[2].name in RENDER_ROOT_NAMES or f[2].name.startswith(RENDER_ROOT_PREFIXES)]
+    while todo:
+        i = todo.pop()
+        if i in render:
+            continue
+        render.add(i)
+        for c in calls[i]:
+            for j in by_name.get(c, []):
+                if j not in render and funcs[j][2].name != '__init__':
+                    todo.append(j)
+    # ---- stores
+    out: typing.List[dict] = []
+    for i, (rel, qual, fn, encl, mod_globals) in enumerate(funcs):
+        if fn.name == '__init__':
+            continue
+        own = [n for n in ast.walk(fn)]
+        nested_nodes = set()
+        for n in own:
+            if n is not fn and isinstance(n, (ast.FunctionDef, ast.AsyncFunctionDef)):
+                nested_nodes.update(id(x) for x in ast.walk(n) if x is not n)
+        params = {a.arg for a in fn.args.args + fn.args.kwonlyargs}
+        locs = {n.id for n in own if isinstance(n, ast.Name) and isinstance(n.ctx, ast.Store) and id(n) not in nested_nodes}
+        declared_global = {g for n in own if isinstance(n, (ast.Global, ast.Nonlocal)) for g in n.names}
+        alias: typing.Dict[str, str] = {}
+        for n in own:       # local = <expression reached from self / cls / a global / a closed-over variable>
+            if isinstance(n, (ast.Assign, ast.AnnAssign)) and n.value is not None and id(n) not in nested_nodes:
+                r, path = _path_of(n.value, {})
+                if r is None:
+                    continue
+                long_lived = r in ('self', 'cls') or (r not in locs and r not in params and (r in encl or r in mod_globals))
+                if long_lived and not isinstance(n.value, ast.Call):
+                    for t in (n.targets if isinstance(n, ast.Assign) else [n.target]):
+                        if isinstance(t, ast.Name):
+                            alias[t.id] = path
+
+        def root_kind(r: typing.Optional[str]) -> typing.Optional[str]:
+            if r is None:
+                return None
+            if r == 'self':
+                return 'RSelf'
+            if r == 'cls':
+                return 'RCls'
+            if r in declared_global:
+                return 'RGlobal'
+            if r in locs or r in params:
+                return None
+            if r in encl:
+                return 'RClosure'
+            if r in mod_globals:
+                return 'RGlobal'
+            return None
+
+        def add(e: ast.expr, suffix: str = ''):
+            r, path = _path_of(e, alias)
+            k = root_kind(r)
+            if k:
+                out.append({'file': rel, 'fn': qual, 'target': path + suffix, 'root': k,
+                            'phase': 'SRender' if i in render else 'SSetup'})
+
+        for n in own:
+            if id(n) in nested_nodes:
+                continue
+            if isinstance(n, (ast.Assign, ast.AugAssign, ast.AnnAssign, ast.Delete)):
+                for t in (n.targets if isinstance(n, (ast.Assign, ast.Delete)) else [n.target]):
+                    if isinstance(t, (ast.Attribute, ast.Subscript)):
+                        add(t)
+                    elif isinstance(t, ast.Name) and t.id in declared_global:
+                        out.append({'file': rel, 'fn': qual, 'target': t.id, 'root': 'RGlobal',
+                                    'phase': 'SRender' if i in render else 'SSetup'})
+            elif isinstance(n, ast.Call):
+                f = n.func
+                if isinstance(f, ast.Attribute) and f.attr in STORE_MUTATORS:
+                    add(f.value, '.%s()' % f.attr)
+                elif isinstance(f, ast.Name) and f.id in ('setattr', 'delattr') and n.args:
+                    nm = n.args[1].value if len(n.args) > 1 and isinstance(n.args[1], ast.Constant) else '*'
+                    add(n.args[0], '.<%s %s>' % (f.id, nm))
+    seen, res = set(), []
+    for s in out:
+        k = (s['file'], s['fn'], s['target'])
+        if k not in seen:
+            seen.add(k)
+            res.append(s)
+    return res
